@@ -27,6 +27,7 @@ import (
 type Prog struct {
 	ID       string `json:"id"`
 	Src      string `json:"src"`
+	Pre      string `json:"pre"` // run to completion first, in the same environment, by a plain vm.Execute (another run, another context)
 	Threads  int    `json:"threads"` // script goroutines that may log one more effect before they observe
 }
 
@@ -98,12 +99,17 @@ func one(p Prog, k int) Obs {
 	if k < 0 {
 		r.k = 1 << 60
 	}
-	cur.Store(r)
 	e := env.NewEnv()
 	e.Define("p", func(x interface{}) interface{} { atomic.AddInt64(&r.effects, 1); return x })
 	e.Define("p2", func(a, b interface{}) interface{} { atomic.AddInt64(&r.effects, 1); return b })
 	e.Define("big", big)
 	e.Define("bigmap", bigMap)
+	if p.Pre != "" {
+		if _, err := vm.Execute(e, nil, p.Pre); err != nil {
+			return Obs{ID: p.ID, Gate: k, Err: "PRELUDE: " + err.Error()}
+		}
+	}
+	cur.Store(r)
 	type res struct {
 		v   interface{}
 		err error
